@@ -89,6 +89,8 @@ struct FakeSrv : Monitor {
 		userid = (int)f.geti("userid"); raw_ok = f.getb("raw_ok"); login_odd = f.getd("login_odd");
 		p_hold = f.getd("p_hold"); hold_max = (uint64_t)f.geti("hold_max_us", 1000000);
 		seed = (uint32_t)splitmix64(key ^ 0x5eed);
+		// the login challenge is any 32-bit value the server likes, including the ones next to the sign change and the wrap
+		{ static const uint32_t edge[] = {0x7fffffffu, 0x80000000u, 0xffffffffu, 0u, 1u, 0x80000001u, 0x7ffffffeu}; if (splitmix64(key ^ 0xed6e) % 4 == 0) seed = edge[splitmix64(key ^ 0xed6f) % 7]; }
 		FakeSrv *self = this;
 		sock = w->S.model_socket(w->srv_host, AF_INET, 53, [self](const Dgram &d) { self->on_rx(d); });
 	}
